@@ -194,7 +194,7 @@ Definition req_event (c : cfg) (req : list (pid * (Z * Z))) : event :=
 Fixpoint write_blocks (sel : pid -> bool) (req : list (pid * (Z * Z))) (st : list (pid * (Z * Z))) :=
   match req with
   | [] => st
-  | (p, v) :: r => write_blocks sel r (if sel p then set p v st else st)
+  | (p, v) :: r => let st' := write_blocks sel r st in if sel p then set p v st' else st'
   end.
 
 (* om.handleError: every managed partition reports the error *)
